@@ -87,6 +87,9 @@ class BcryptSHA256Hasher(PasswordHasher):
         info = inspect_bcrypt_hash(hash)
         if not info:
             raise Panic
+        if info.prefix != "2b":
+            # the v=2 format is defined over $2b$ only (passlib refuses any other "t=")
+            raise ValueError("bcrypt-sha256 requires a $2b$ salt")
 
         return BcryptSHA256PHCV2(
             id="bcrypt-sha256",
